@@ -604,6 +604,7 @@ func c08OddSignatures(x *X) {
 	mi := x.Choose(len(oddMethods))
 	kind := x.Choose(2)
 	cname := []string{"bytes", "json"}[x.Choose(2)]
+	svcName := []string{"Odd", "geo.v1", "a.b.c", "Box[time.Duration]", ".odd", "odd."}[x.Choose(6)] // (a registered name may contain dots)
 	so := srvOpts{bufSize: 64}
 	if cname == "json" {
 		so.codec = func() rpc.Codec { return rpc.NewJSONCodec() }
@@ -617,7 +618,11 @@ func c08OddSignatures(x *X) {
 				regPanic = fmt.Sprint(r)
 			}
 		}()
-		srv.Register(&Odd{})
+		if svcName == "Odd" {
+			srv.Register(&Odd{})
+		} else {
+			srv.RegisterName(svcName, &Odd{})
+		}
 	}()
 	if regPanic != "" {
 		x.Outcome("Register panicked: %s", regPanic) // (the application's own call: not something a peer does)
@@ -632,9 +637,9 @@ func c08OddSignatures(x *X) {
 		if kind == 0 {
 			args := []byte(`5`)
 			var reply []byte
-			err = conn.Call("Odd."+oddMethods[mi], &args, &reply)
+			err = conn.Call(svcName+"."+oddMethods[mi], &args, &reply)
 		} else {
-			_, err = conn.NewStream("Odd." + oddMethods[mi])
+			_, err = conn.NewStream(svcName + "." + oddMethods[mi])
 		}
 		ret = true
 	})
@@ -646,12 +651,12 @@ func c08OddSignatures(x *X) {
 	var areply []byte
 	aret := false
 	var aerr error
-	vs.GoNamed("caller2", func() { aerr = conn.Call("Odd.Good", &after, &areply); aret = true })
+	vs.GoNamed("caller2", func() { aerr = conn.Call(svcName+".Good", &after, &areply); aret = true })
 	vs.Quiesce()
 	if !aret || aerr != nil {
-		x.Fail("C08/connection-wedged/odd-signatures", "after a %s naming the registered method Odd.%s (body codec %s) a well-formed call on the same connection: returned=%v err=%v", []string{"call", "stream open"}[kind], oddMethods[mi], cname, aret, aerr)
+		x.Fail("C08/connection-wedged/odd-signatures", "after a %s naming the registered method %s.%s (body codec %s) a well-formed call on the same connection: returned=%v err=%v", []string{"call", "stream open"}[kind], svcName, oddMethods[mi], cname, aret, aerr)
 	}
-	x.Outcome("%s kind=%d codec=%s ret=%v err=%v", oddMethods[mi], kind, cname, ret, err)
+	x.Outcome("%s.%s kind=%d codec=%s ret=%v err=%v", svcName, oddMethods[mi], kind, cname, ret, err)
 	conn.Close()
 	vs.Quiesce()
 }
